@@ -153,7 +153,12 @@ static void put_distances(struct sb *b, hwloc_topology_t t, unsigned flags)
   struct hwloc_distances_s **d = calloc(nr, sizeof(*d));
   unsigned nr2 = nr;
   if (hwloc_distances_get(t, &nr2, d, 0, 0) < 0 || nr2 != nr) { sb_printf(b, " distances: second get returned %u\n", nr2); if (nr2 > nr) nr2 = nr; }
+  /* the XML document lists homogeneous structures first, then heterogeneous ones (documented in the exporter): when the
+   * dump serves an XML comparison (CANON_SPECIAL_ORDER off) the list is emitted in that order, list order inside each class */
+  int passes = (flags & CANON_SPECIAL_ORDER) ? 1 : 2;
+  for (int pass = 0; pass < passes; pass++)
   for (unsigned i = 0; i < nr2; i++) {
+    if (passes == 2 && !!(d[i]->kind & HWLOC_DISTANCES_KIND_HETEROGENEOUS_TYPES) != pass) continue;
     const char *name = hwloc_distances_get_name(t, d[i]);
     sb_puts(b, " dist name="); sb_put_escaped(b, name);
     sb_printf(b, " kind=%#lx nbobjs=%u objs=", d[i]->kind, d[i]->nbobjs);
@@ -161,8 +166,8 @@ static void put_distances(struct sb *b, hwloc_topology_t t, unsigned flags)
     sb_puts(b, " values=");
     for (unsigned j = 0; j < d[i]->nbobjs * d[i]->nbobjs; j++) sb_printf(b, "%" PRIu64 ",", d[i]->values[j]);
     sb_putc(b, '\n');
-    hwloc_distances_release(t, d[i]);
   }
+  for (unsigned i = 0; i < nr2; i++) hwloc_distances_release(t, d[i]);
   free(d);
 }
 
